@@ -38,6 +38,7 @@ def strategy(draw, tier):
     case['probe'] = draw(st.sampled_from(['eq', 'ulp+', 'ulp-', 'eq']))
     case['probe_row'] = draw(st.integers(0, 200))
     case['exact_duration'] = draw(st.integers(0, 3)) == 0
+    case['buffer'] = draw(st.integers(0, 4)) == 0
     return case
 
 
@@ -90,7 +91,22 @@ def check(case, rec):
             rec.label('burst-of-exactly-the-minimum-duration')
     pipeline.expected_cycles(case, x)
     mask = pipeline.trusted_burst_mask(case, x)
-    df = pipeline.analyse(case, x, return_samples=True)
+    if case.get('buffer'):
+        # one array object analysed, refilled in place with this recording, analysed again (acquisition buffer)
+        import warnings
+        from bycycle.features import compute_features
+        buf = np.array(x[::-1], dtype=x.dtype, copy=True)
+        with warnings.catch_warnings():
+            warnings.simplefilter('ignore')
+            try:
+                compute_features(buf, case['fs'], tuple(case['f_range']), **gen.cf_kwargs(case, return_samples=True))
+            except Exception:  # noqa - only the second call is judged
+                pass
+            buf[:] = x
+            df = guarded(compute_features, buf, case['fs'], tuple(case['f_range']), **gen.cf_kwargs(case, return_samples=True))
+        rec.label('buffer-refilled')
+    else:
+        df = pipeline.analyse(case, x, return_samples=True)
     rec.label(*gen.case_labels(case))
     nm = ref.names(case['center'])
     last = df[nm['last']].values.astype(int)
